@@ -8,9 +8,14 @@ import ScoresVerif.Lemmas.FlBasic
 import Mathlib.Algebra.BigOperators.Intervals
 import Mathlib.Tactic.Ring
 import Mathlib.Tactic.Linarith
+import Mathlib.Tactic.FieldSimp
+import Mathlib.Tactic.Positivity
+import Mathlib.Tactic.NormNum
+import Mathlib.Algebra.Order.Field.Rat
+import Mathlib.Data.Rat.Cast.Order
 
 namespace SV.Model.Fss
-open Finset SV
+open Finset SV SV.Fl
 
 theorem get_mkTab (f : Nat → Nat → Int) (H W i j : Nat) (hi : i < H) (hj : j < W) :
     Fss.get (mkTab f H W) i j = f i j := by
@@ -165,5 +170,340 @@ theorem imgPad_eq_spec (x : Tab) (H W h w : Nat) (hh : 1 ≤ h) (hw : 1 ≤ w) :
   simp only [t0, t1, b0, b1]
   rw [win_ext _ _ _ _ _ _ _ _ _ (by omega) (by omega),
     corner_integral _ _ _ _ _ _ _ (by omega) (by omega) (by omega) (by omega)]
+
+/-! ### scalar tails on finite components -/
+
+theorem clamp_fin (v : Rat) :
+    SV.Gen.Fss.pymax (SV.Gen.Fss.pymin (fin v) (fin 1)) (fin 0) = fin (max (min v 1) 0) := by
+  unfold SV.Gen.Fss.pymax SV.Gen.Fss.pymin
+  by_cases h1 : (1 : Rat) < v
+  · have : ¬ (1 : Rat) < 0 := by norm_num
+    simp [lt_fin, gt_fin, h1, min_eq_right (le_of_lt h1), this]
+  · have h1' : v ≤ 1 := not_lt.mp h1
+    by_cases h0 : v < 0
+    · simp [lt_fin, gt_fin, h1, h0, min_eq_left h1', max_eq_right (le_of_lt h0)]
+    · simp [lt_fin, gt_fin, h1, h0, min_eq_left h1', max_eq_left (not_lt.mp h0)]
+
+/-- the scalar tail on finite components: zero-denominator branch and the clamp -/
+theorem compute_fss_fin (f o d : Rat) :
+    SV.Gen.Fss.compute_fss (fin f) (fin o) (fin d)
+      = fin (if 0 < f + o then max (min (1 - d / (f + o)) 1) 0 else 0) := by
+  unfold SV.Gen.Fss.compute_fss
+  by_cases h : 0 < f + o
+  · have hne : f + o ≠ 0 := ne_of_gt h
+    simp only [add_fin, gt_fin, h, decide_true, if_true, div_fin _ _ hne, sub_fin]
+    exact clamp_fin _
+  · simp only [add_fin, gt_fin, h, decide_false, if_false]
+    have := clamp_fin 0
+    simpa using this
+
+theorem agg_tail_fin (f o d : Rat) :
+    SV.Gen.Fss.agg_tail (fin f, fin o, fin d)
+      = fin (if 0 < o + f then max (min (1 - d / (o + f)) 1) 0 else 0) := by
+  unfold SV.Gen.Fss.agg_tail
+  by_cases h : 0 < o + f
+  · have hne : o + f ≠ 0 := ne_of_gt h
+    simp only [add_fin, gt_fin, h, decide_true, if_true, div_fin _ _ hne, sub_fin]
+    exact clamp_fin _
+  · simp only [add_fin, gt_fin, h, decide_false, if_false]
+    have := clamp_fin 0
+    simpa using this
+
+/-! ### sums of squares -/
+
+theorem sumSq_nonneg (l : List Int) : 0 ≤ sumSq l := by
+  induction l with
+  | nil => simp [sumSq]
+  | cons v t ih => unfold sumSq; nlinarith [mul_self_nonneg v]
+
+theorem spec_sums_eq : ∀ (lf lo : List Int), lf.length = lo.length →
+    SV.Spec.Fss.sums lf lo = (sumSq lf, sumSq lo, sumSq (diffImg lo lf))
+  | [], [], _ => by simp [SV.Spec.Fss.sums, sumSq, diffImg]
+  | [], _ :: _, h => by simp at h
+  | _ :: _, [], h => by simp at h
+  | f :: fs, o :: os, h => by
+    have ih := spec_sums_eq fs os (by simpa using h)
+    simp only [SV.Spec.Fss.sums, ih, sumSq, diffImg, List.zipWith_cons_cons]
+
+theorem spec_sums_bound : ∀ (lf lo : List Int), (∀ v ∈ lf, 0 ≤ v) → (∀ v ∈ lo, 0 ≤ v) →
+    0 ≤ (SV.Spec.Fss.sums lf lo).1 ∧ 0 ≤ (SV.Spec.Fss.sums lf lo).2.1 ∧ 0 ≤ (SV.Spec.Fss.sums lf lo).2.2 ∧
+    (SV.Spec.Fss.sums lf lo).2.2 ≤ (SV.Spec.Fss.sums lf lo).2.1 + (SV.Spec.Fss.sums lf lo).1
+  | [], _, _, _ => by simp [SV.Spec.Fss.sums]
+  | _ :: _, [], _, _ => by simp [SV.Spec.Fss.sums]
+  | f :: fs, o :: os, hf, ho => by
+    obtain ⟨h1, h2, h3, h4⟩ := spec_sums_bound fs os (fun v hv => hf v (List.mem_cons_of_mem _ hv))
+      (fun v hv => ho v (List.mem_cons_of_mem _ hv))
+    have f0 : 0 ≤ f := hf f List.mem_cons_self
+    have o0 : 0 ≤ o := ho o List.mem_cons_self
+    simp only [SV.Spec.Fss.sums]
+    refine ⟨by nlinarith [mul_self_nonneg f], by nlinarith [mul_self_nonneg o], by nlinarith [mul_self_nonneg (o - f)], ?_⟩
+    nlinarith [mul_nonneg f0 o0]
+
+/-- 0 ≤ FSS ≤ 1 for the unclamped formula whenever the sums come from non-negative counts -/
+theorem spec_score_bounds (s : Int × Int × Int) (h1 : 0 ≤ s.1) (h2 : 0 ≤ s.2.1) (h3 : 0 ≤ s.2.2) (h4 : s.2.2 ≤ s.2.1 + s.1) :
+    0 ≤ SV.Spec.Fss.score s ∧ SV.Spec.Fss.score s ≤ 1 := by
+  unfold SV.Spec.Fss.score
+  split_ifs with h0
+  · constructor <;> norm_num
+  · have hpos : (0 : Rat) < ((s.2.1 + s.1 : Int) : Rat) := by
+      have : 0 < s.2.1 + s.1 := lt_of_le_of_ne (by omega) (Ne.symm h0)
+      exact_mod_cast this
+    have hle : ((s.2.2 : Int) : Rat) ≤ ((s.2.1 + s.1 : Int) : Rat) := by exact_mod_cast h4
+    have hnn : (0 : Rat) ≤ ((s.2.2 : Int) : Rat) := by exact_mod_cast h3
+    constructor
+    · rw [sub_nonneg, div_le_one hpos]; exact hle
+    · have : 0 ≤ ((s.2.2 : Int) : Rat) / ((s.2.1 + s.1 : Int) : Rat) := div_nonneg hnn hpos.le
+      linarith
+
+theorem scoreOf_components (lf lo : List Int) (hlen : lf.length = lo.length) (hpos : 0 < lf.length)
+    (hf : ∀ v ∈ lf, 0 ≤ v) (ho : ∀ v ∈ lo, 0 ≤ v) :
+    scoreOf (components lf lo) = fin (SV.Spec.Fss.score (SV.Spec.Fss.sums lf lo)) := by
+  obtain ⟨h1, h2, h3, h4⟩ := spec_sums_bound lf lo hf ho
+  have hb := spec_score_bounds _ h1 h2 h3 h4
+  revert hb h1 h2 h3 h4
+  rw [spec_sums_eq lf lo hlen]
+  intro h1 h2 h3 h4 hb
+  unfold scoreOf components SV.Gen.Fss.components
+  simp only
+  rw [compute_fss_fin]
+  congr 1
+  have hdl : (diffImg lo lf).length = lf.length := by simp [diffImg, hlen]
+  unfold meanSq
+  rw [hdl, ← hlen]
+  have hn : (0 : Rat) < (lf.length : Rat) := by exact_mod_cast hpos
+  unfold SV.Spec.Fss.score at hb ⊢
+  simp only at h1 h2 h3 h4 hb ⊢
+  by_cases h0 : sumSq lo + sumSq lf = 0
+  · have hf0 : sumSq lf = 0 := by omega
+    have ho0 : sumSq lo = 0 := by omega
+    simp [hf0, ho0]
+  · rw [if_neg h0] at hb ⊢
+    have hpos' : (0 : Rat) < ((sumSq lo + sumSq lf : Int) : Rat) := by
+      have : 0 < sumSq lo + sumSq lf := lt_of_le_of_ne (by omega) (Ne.symm h0)
+      exact_mod_cast this
+    have hsum : (sumSq lf : Rat) / lf.length + (sumSq lo : Rat) / lf.length = ((sumSq lo + sumSq lf : Int) : Rat) / lf.length := by
+      push_cast; ring
+    have hq : ((sumSq (diffImg lo lf) : Rat) / lf.length) / (((sumSq lo + sumSq lf : Int) : Rat) / lf.length)
+        = (sumSq (diffImg lo lf) : Rat) / ((sumSq lo + sumSq lf : Int) : Rat) := by
+      field_simp
+    rw [hsum, if_pos (div_pos hpos' hn), hq, min_eq_left hb.2, max_eq_left hb.1]
+
+/-! ### images, events -/
+
+theorem length_flatMap_range (n m : Nat) (f : Nat → Nat → Int) :
+    ((List.range n).flatMap fun i => (List.range m).map (f i)).length = n * m := by
+  induction n with
+  | zero => simp
+  | succ n ih => rw [List.range_succ, List.flatMap_append, List.length_append, ih]; simp; ring
+
+theorem length_image (x : Nat → Nat → Int) (H W pt pb pl pr h w : Nat) :
+    (SV.Spec.Fss.image x H W pt pb pl pr h w).length = (pt + H + pb + 1 - h) * (pl + W + pr + 1 - w) :=
+  length_flatMap_range _ _ _
+
+theorem ext_nonneg (x : Nat → Nat → Int) (H W pt pl : Nat) (hx : ∀ i < H, ∀ j < W, 0 ≤ x i j) (a b : Nat) :
+    0 ≤ SV.Spec.Fss.ext x H W pt pl a b := by
+  unfold SV.Spec.Fss.ext
+  split_ifs with hc
+  · exact hx _ (by omega) _ (by omega)
+  · exact le_refl _
+
+theorem win_nonneg (e : Nat → Nat → Int) (he : ∀ a b, 0 ≤ e a b) (i j h w : Nat) : 0 ≤ SV.Spec.Fss.win e i j h w := by
+  unfold SV.Spec.Fss.win
+  simp only [sumTo_eq_sum]
+  exact Finset.sum_nonneg fun a _ => Finset.sum_nonneg fun b _ => he _ _
+
+theorem image_nonneg (x : Nat → Nat → Int) (H W pt pb pl pr h w : Nat) (hx : ∀ i < H, ∀ j < W, 0 ≤ x i j) :
+    ∀ v ∈ SV.Spec.Fss.image x H W pt pb pl pr h w, 0 ≤ v := by
+  intro v hv
+  unfold SV.Spec.Fss.image at hv
+  rw [List.mem_flatMap] at hv
+  obtain ⟨i, _, hv⟩ := hv
+  rw [List.mem_map] at hv
+  obtain ⟨j, _, rfl⟩ := hv
+  exact win_nonneg _ (ext_nonneg x H W pt pl hx) _ _ _ _
+
+theorem ext_congr (x y : Nat → Nat → Int) (H W pt pl : Nat) (hxy : ∀ i < H, ∀ j < W, x i j = y i j) :
+    SV.Spec.Fss.ext x H W pt pl = SV.Spec.Fss.ext y H W pt pl := by
+  funext a b
+  unfold SV.Spec.Fss.ext
+  split_ifs with hc
+  · exact hxy _ (by omega) _ (by omega)
+  · rfl
+
+theorem image_congr (x y : Nat → Nat → Int) (H W pt pb pl pr h w : Nat) (hxy : ∀ i < H, ∀ j < W, x i j = y i j) :
+    SV.Spec.Fss.image x H W pt pb pl pr h w = SV.Spec.Fss.image y H W pt pb pl pr h w := by
+  unfold SV.Spec.Fss.image
+  rw [ext_congr x y H W pt pl hxy]
+
+/-- the comparison operators of the model and of the spec -/
+def cmpOp : SV.Spec.Fss.Cmp → ThrOp
+  | .gt => .gt | .ge => .ge | .lt => .lt | .le => .le
+
+theorem event_eq_spec (c : SV.Spec.Fss.Cmp) (x thr : Fl) : event (cmpOp c) x thr = SV.Spec.Fss.isEvent c x thr := by
+  cases c <;> cases x <;> cases thr <;> simp [event, cmpOp, SV.Spec.Fss.isEvent, Fl.gt, Fl.ge, Fl.lt, Fl.le, Fl.isNan]
+
+theorem event_nan (c : SV.Spec.Fss.Cmp) (thr : Fl) : event (cmpOp c) Fl.nan thr = 0 := by
+  cases c <;> simp [event, cmpOp]
+
+theorem event_01 (op : ThrOp) (x thr : Fl) : event op x thr = 0 ∨ event op x thr = 1 := by
+  cases op <;> simp only [event] <;> split_ifs <;> simp
+
+theorem get_pop (op : ThrOp) (thr : Fl) (field : List (List Fl)) (H W i j : Nat) (hi : i < H) (hj : j < W) :
+    Fss.get (pop op thr field H W) i j = event op (getFl field i j) thr := by
+  unfold pop; rw [get_mkTab _ _ _ _ _ hi hj]
+
+/-! ### symmetry, identical fields -/
+
+theorem spec_sums_swap : ∀ (lf lo : List Int),
+    SV.Spec.Fss.sums lo lf = ((SV.Spec.Fss.sums lf lo).2.1, (SV.Spec.Fss.sums lf lo).1, (SV.Spec.Fss.sums lf lo).2.2)
+  | [], [] => by simp [SV.Spec.Fss.sums]
+  | [], _ :: _ => by simp [SV.Spec.Fss.sums]
+  | _ :: _, [] => by simp [SV.Spec.Fss.sums]
+  | f :: fs, o :: os => by
+    simp only [SV.Spec.Fss.sums, spec_sums_swap fs os, Prod.mk.injEq, true_and]
+    ring
+
+theorem spec_score_swap (a b c : Int) : SV.Spec.Fss.score (b, a, c) = SV.Spec.Fss.score (a, b, c) := by
+  unfold SV.Spec.Fss.score
+  simp only [add_comm a b]
+
+theorem spec_sums_self : ∀ (l : List Int), SV.Spec.Fss.sums l l = (sumSq l, sumSq l, 0)
+  | [] => by simp [SV.Spec.Fss.sums, sumSq]
+  | v :: t => by simp [SV.Spec.Fss.sums, spec_sums_self t, sumSq]
+
+theorem sumSq_pos_of_mem : ∀ (l : List Int) (v : Int), v ∈ l → v ≠ 0 → 0 < sumSq l
+  | [], _, h, _ => by simp at h
+  | u :: t, v, h, hv => by
+    unfold sumSq
+    rcases List.mem_cons.mp h with rfl | h'
+    · have : 0 < v * v := mul_self_pos.mpr hv
+      have := sumSq_nonneg t
+      linarith
+    · have := sumSq_pos_of_mem t v h' hv
+      nlinarith [mul_self_nonneg u]
+
+/-- a cell with an event lies in some window position, whose count is then positive -/
+theorem exists_pos_entry (x : Nat → Nat → Int) (H W pt pb pl pr h w a b : Nat)
+    (hx : ∀ i < H, ∀ j < W, 0 ≤ x i j) (ha : a < H) (hb : b < W) (hab : 0 < x a b)
+    (hh : 1 ≤ h) (hH : h ≤ pt + H + pb) (hw : 1 ≤ w) (hW : w ≤ pl + W + pr) :
+    ∃ v ∈ SV.Spec.Fss.image x H W pt pb pl pr h w, v ≠ 0 := by
+  let i := min (a + pt) (pt + H + pb - h)
+  let j := min (b + pl) (pl + W + pr - w)
+  refine ⟨SV.Spec.Fss.win (SV.Spec.Fss.ext x H W pt pl) i j h w, ?_, ?_⟩
+  · unfold SV.Spec.Fss.image
+    rw [List.mem_flatMap]
+    refine ⟨i, List.mem_range.mpr (by omega), ?_⟩
+    rw [List.mem_map]
+    exact ⟨j, List.mem_range.mpr (by omega), rfl⟩
+  · have he := ext_nonneg x H W pt pl hx
+    have hpos : 0 < SV.Spec.Fss.win (SV.Spec.Fss.ext x H W pt pl) i j h w := by
+      unfold SV.Spec.Fss.win
+      simp only [sumTo_eq_sum]
+      have ha' : a + pt - i ∈ range h := Finset.mem_range.mpr (by omega)
+      have hb' : b + pl - j ∈ range w := Finset.mem_range.mpr (by omega)
+      have h1 := Finset.single_le_sum (f := fun a' => ∑ b' ∈ range w, SV.Spec.Fss.ext x H W pt pl (i + a') (j + b'))
+        (fun a' _ => Finset.sum_nonneg fun b' _ => he _ _) ha'
+      have h2 := Finset.single_le_sum (f := fun b' => SV.Spec.Fss.ext x H W pt pl (i + (a + pt - i)) (j + b'))
+        (fun b' _ => he _ _) hb'
+      have e1 : i + (a + pt - i) = a + pt := by omega
+      have e2 : j + (b + pl - j) = b + pl := by omega
+      have hval : SV.Spec.Fss.ext x H W pt pl (a + pt) (b + pl) = x a b := by
+        unfold SV.Spec.Fss.ext
+        rw [if_pos (by omega)]
+        congr 1 <;> omega
+      simp only [e1, e2, hval] at h1 h2
+      linarith
+    exact ne_of_gt hpos
+
+/-! ### aggregation over fields -/
+
+/-- component triple of integer sums over n positions -/
+def toC (n : Nat) (s : Int × Int × Int) : Fl × Fl × Fl :=
+  (fin ((s.1 : Rat) / n), fin ((s.2.1 : Rat) / n), fin ((s.2.2 : Rat) / n))
+
+def totS : List (Int × Int × Int) → Int × Int × Int
+  | [] => (0, 0, 0)
+  | s :: t => SV.Spec.Fss.addS s (totS t)
+
+theorem components_eq (lf lo : List Int) (hlen : lf.length = lo.length) :
+    components lf lo = toC lf.length (SV.Spec.Fss.sums lf lo) := by
+  have hdl : (diffImg lo lf).length = lf.length := by simp [diffImg, hlen]
+  rw [spec_sums_eq lf lo hlen]
+  unfold components SV.Gen.Fss.components toC meanSq
+  rw [hdl, ← hlen]
+
+theorem foldl_addS (ss : List (Int × Int × Int)) : ∀ (A : Int × Int × Int),
+    ss.foldl SV.Spec.Fss.addS A = SV.Spec.Fss.addS A (totS ss) := by
+  induction ss with
+  | nil => intro A; simp [totS, SV.Spec.Fss.addS]
+  | cons s t ih =>
+    intro A
+    rw [List.foldl_cons, ih]
+    simp only [totS, SV.Spec.Fss.addS, Prod.mk.injEq]
+    refine ⟨by ring, by ring, by ring⟩
+
+theorem foldl_step (n l : Nat) (hn : 0 < n) (hl : 0 < l) (ss : List (Int × Int × Int)) : ∀ (a b c : Rat),
+    (ss.map (toC n)).foldl (fun acc e => SV.Gen.Fss.agg_step (Fl.ofNat l) acc e.1 e.2.1 e.2.2) (fin a, fin b, fin c)
+      = (fin (a + ((totS ss).1 : Rat) / (n * l)), fin (b + ((totS ss).2.1 : Rat) / (n * l)), fin (c + ((totS ss).2.2 : Rat) / (n * l))) := by
+  have hn' : (n : Rat) ≠ 0 := by exact_mod_cast hn.ne'
+  have hl' : (l : Rat) ≠ 0 := by exact_mod_cast hl.ne'
+  induction ss with
+  | nil => intro a b c; simp [totS]
+  | cons s t ih =>
+    intro a b c
+    rw [List.map_cons, List.foldl_cons]
+    have hstep : SV.Gen.Fss.agg_step (Fl.ofNat l) (fin a, fin b, fin c) (toC n s).1 (toC n s).2.1 (toC n s).2.2
+        = (fin (a + (s.1 : Rat) / n / l), fin (b + (s.2.1 : Rat) / n / l), fin (c + (s.2.2 : Rat) / n / l)) := by
+      unfold SV.Gen.Fss.agg_step toC Fl.ofNat
+      simp only [div_fin _ _ hl', add_fin]
+    rw [hstep, ih]
+    simp only [totS, SV.Spec.Fss.addS, Prod.mk.injEq, fin.injEq]
+    push_cast
+    refine ⟨?_, ?_, ?_⟩ <;> field_simp <;> ring
+
+theorem totS_bound : ∀ (ss : List (Int × Int × Int)),
+    (∀ s ∈ ss, 0 ≤ s.1 ∧ 0 ≤ s.2.1 ∧ 0 ≤ s.2.2 ∧ s.2.2 ≤ s.2.1 + s.1) →
+    0 ≤ (totS ss).1 ∧ 0 ≤ (totS ss).2.1 ∧ 0 ≤ (totS ss).2.2 ∧ (totS ss).2.2 ≤ (totS ss).2.1 + (totS ss).1
+  | [], _ => by simp [totS]
+  | s :: t, h => by
+    obtain ⟨a1, a2, a3, a4⟩ := h s List.mem_cons_self
+    obtain ⟨b1, b2, b3, b4⟩ := totS_bound t fun u hu => h u (List.mem_cons_of_mem _ hu)
+    simp only [totS, SV.Spec.Fss.addS]
+    refine ⟨by omega, by omega, by omega, by omega⟩
+
+/-- `_aggregate_fss_decomposed` on the component triples of several fields (n positions each) is the score of the POOLED
+    sums — i.e. of the means of the three sums, not of the per-field scores -/
+theorem aggregateArr_eq (n : Nat) (hn : 0 < n) (ss : List (Int × Int × Int)) (hne : ss ≠ [])
+    (hb : ∀ s ∈ ss, 0 ≤ s.1 ∧ 0 ≤ s.2.1 ∧ 0 ≤ s.2.2 ∧ s.2.2 ≤ s.2.1 + s.1) :
+    aggregateArr (ss.map (toC n)) = fin (SV.Spec.Fss.score (totS ss)) := by
+  have hl : 0 < ss.length := List.length_pos_of_ne_nil hne
+  obtain ⟨h1, h2, h3, h4⟩ := totS_bound ss hb
+  have hsb := spec_score_bounds _ h1 h2 h3 h4
+  unfold aggregateArr
+  simp only [List.length_map]
+  rw [if_neg (by omega)]
+  have := foldl_step n ss.length hn hl ss 0 0 0
+  unfold SV.Gen.Fss.agg_init
+  rw [this, agg_tail_fin]
+  congr 1
+  have hn' : (0 : Rat) < (n : Rat) * ss.length := by
+    have : 0 < n * ss.length := Nat.mul_pos hn hl
+    exact_mod_cast this
+  unfold SV.Spec.Fss.score at hsb ⊢
+  by_cases h0 : (totS ss).2.1 + (totS ss).1 = 0
+  · have hf0 : (totS ss).1 = 0 := by omega
+    have ho0 : (totS ss).2.1 = 0 := by omega
+    simp [hf0, ho0]
+  · rw [if_neg h0] at hsb ⊢
+    have hpos' : (0 : Rat) < (((totS ss).2.1 + (totS ss).1 : Int) : Rat) := by
+      have : 0 < (totS ss).2.1 + (totS ss).1 := lt_of_le_of_ne (by omega) (Ne.symm h0)
+      exact_mod_cast this
+    have hsum : (0 : Rat) + ((totS ss).2.1 : Rat) / (n * ss.length) + (0 + ((totS ss).1 : Rat) / (n * ss.length))
+        = (((totS ss).2.1 + (totS ss).1 : Int) : Rat) / (n * ss.length) := by
+      push_cast; ring
+    have hq : ((0 : Rat) + ((totS ss).2.2 : Rat) / (n * ss.length)) / ((((totS ss).2.1 + (totS ss).1 : Int) : Rat) / (n * ss.length))
+        = ((totS ss).2.2 : Rat) / (((totS ss).2.1 + (totS ss).1 : Int) : Rat) := by
+      rw [zero_add]; field_simp
+    rw [hsum, if_pos (div_pos hpos' hn'), hq, min_eq_left hsb.2, max_eq_left hsb.1]
 
 end SV.Model.Fss
